@@ -246,6 +246,34 @@ def bufAsString (st : List Char) : List Char := st
 def bufRun (init : List Char) (log : List BufOp) : List Char :=
   bufAsString (log.foldl bufStep init)
 
+/-! ### histories: pushes and READS interleaved (every `as_string` is observed)
+
+All handles of one `StringBuf` (`let b2 = b;` clones the `Arc`) share the one
+`Mutex<String>`: the state is still the contents, whichever handle is used. -/
+
+inductive BufEv where
+  | op (o : BufOp)
+  | read
+  deriving Repr, DecidableEq
+
+/-- the values returned by the `as_string` calls of a history, in order -/
+def bufTrace (st : List Char) : List BufEv → List (List Char)
+  | [] => []
+  | .op o :: es => bufTrace (bufStep st o) es
+  | .read :: es => bufAsString st :: bufTrace st es
+
+/-- number of reads in a history -/
+def countReads : List BufEv → Nat
+  | [] => 0
+  | .op _ :: es => countReads es
+  | .read :: es => countReads es + 1
+
+/-- everything a history pushes, in order (reads contribute nothing) -/
+def pushedText : List BufEv → List Char
+  | [] => []
+  | .op o :: es => o.text ++ pushedText es
+  | .read :: es => pushedText es
+
 /-! ## Documented meaning (the specification side) -/
 
 /-- the index `k` of the code point starting at byte offset `i` (`k = s.length`
